@@ -116,3 +116,36 @@ def literal_alternatives(pattern: bytes | str) -> list[bytes]:
     if v:
         out.append(v)
     return out
+
+
+def group_max_width(src, k: int):
+    """Upper bound on the length of group k of the pattern (None when the
+    group is not found; MAXREPEAT-sized when unbounded)."""
+    import re._parser as sp
+    import re._constants as sc
+    tree = sp.parse(src)
+
+    def find(t):
+        for op, av in t:
+            if op is sc.SUBPATTERN:
+                if av[0] == k:
+                    return av[3]
+                r = find(av[3])
+                if r is not None:
+                    return r
+            elif op in (sc.MAX_REPEAT, sc.MIN_REPEAT):
+                r = find(av[2])
+                if r is not None:
+                    return r
+            elif op is sc.BRANCH:
+                for b in av[1]:
+                    r = find(b)
+                    if r is not None:
+                        return r
+        return None
+    if k == 0:
+        return tree.getwidth()[1]
+    g = find(tree)
+    if g is None:
+        return None
+    return g.getwidth()[1]
